@@ -16,7 +16,9 @@ RULE = ("Hypothesis rule-based state machine over a simulated node on a generate
         "spent output / wrong key / placeholder signature / output changed after signing / zero output / overspend / no inputs / "
         "no outputs / null reference / reference twice, through add_transaction_to_pool and through a peer's data message; "
         "extend(head, subset of the pool mined, optional conflicting spend) and fork(depth, length) building a longer side branch "
-        "that un-spends and re-spends outputs, delivered through the relay path or set_coinstate. Oracle after EVERY step against "
+        "that un-spends and re-spends outputs, delivered through the relay path or set_coinstate; race_submit: while a valid "
+        "transaction is being admitted another thread publishes a head that spends its input (schedule injection inside the "
+        "admission's validation). Oracle after EVERY step against "
         "the reference ledger at the reference head: each pooled transaction is reference-valid there, no two share a reference; "
         "a transaction failing validity or conflicting is not admitted; after a head change the pool == previous pool filtered by "
         "reference validity, order preserved. non-trivial = machine with >= 1 eviction caused by a fork switch and >= 1 refused "
@@ -265,6 +267,70 @@ class Exec:
             if ok is True and not admitted:
                 self.fail("admission", "reported-admitted-but-not-pooled", "add_transaction_to_pool returned True but the pool is unchanged")
             self.invariant("after submitting a %s transaction" % kind)
+        elif k == "race_submit":
+            # schedule injection: while add_transaction_to_pool is validating a (valid) transaction, the miner/network thread
+            # publishes a new head whose block spends the same output.  Whatever the interleaving, the pool must end up
+            # without that (now invalid) transaction.
+            import threading
+            import skepticoin.networking.manager as MG
+            _, a, b_, c, miner = op
+            tx = self.make_tx("valid", a, b_, c)
+            if tx is None or tx_valid(tx, self.head().utxo) is not None:
+                return
+            h, i, _s = tx.ins[0]
+            o = self.head().utxo[(h, i)]
+            kk = next(kk for kk in KEYS if kk.pub == o[1])
+            rival = R.RTx([(h, i, ("se",))], [(o[0], KEYS[(miner + 5) % len(KEYS)].pub)])
+            rival.ins = [(h, i, ("sig", kk.sign(R.signing_message(rival))))]
+            if rival.touch().id() == tx.id():
+                return
+            self.n += 1
+            label = "q%d" % self.n
+            parent = self.head()
+            plabel = next(l for l, blk in self.world.blocks.items() if blk.id() == parent.id)
+            self.world.txs[label + ".t0"] = rival
+            blk = self.world.build_block({"label": label, "parent": plabel, "miner": miner % len(KEYS), "dt": self.world.safe_dt(parent, 60), "txs": [{"copy": label + ".t0"}]})
+            if blk is None or self.led.validate(blk, blk.ts):
+                return
+            self.simnet.CLOCK.now = max(self.simnet.CLOCK.now, blk.ts)
+            cs2 = self.node.cm.coinstate.add_block(self.b.to_sk_block(blk), self.simnet.CLOCK.now)
+            self.world.accept(label, blk)
+            prev_pool = list(self.pool)
+            orig = MG.validate_non_coinbase_transaction_in_coinstate
+            state = {}
+
+            def validate_then_interleave(*args, **kw):
+                r = orig(*args, **kw)
+                if "t" not in state:
+                    t = threading.Thread(target=lambda: self.node.cm.set_coinstate(cs2))
+                    t.daemon = True
+                    state["t"] = t
+                    t.start()
+                    t.join(0.1)                          # bounded wait only; both orders are legal
+                return r
+
+            MG.validate_non_coinbase_transaction_in_coinstate = validate_then_interleave
+            try:
+                try:
+                    self.node.cm.add_transaction_to_pool(self.b.to_sk_tx(tx))
+                except Exception:
+                    pass
+            finally:
+                MG.validate_non_coinbase_transaction_in_coinstate = orig
+            if "t" in state:
+                state["t"].join(5)
+            else:
+                self.node.cm.set_coinstate(cs2)
+            self.flags["race_submissions"] = self.flags.get("race_submissions", 0) + 1
+            utxo = self.head().utxo
+            want = [t for t in prev_pool if tx_valid(t, utxo) is None]
+            got = self.node_pool()
+            if any(t.id() == tx.id() for t in got):
+                self.fail("race", "transaction-spent-by-new-head-admitted", "a transaction whose input is spent by a head published while it was being admitted ended up in the pool")
+            elif [t.id() for t in got] != [t.id() for t in want]:
+                self.fail("race", "pool-wrong-after-concurrent-head-change", "pool differs from the previous pool filtered by validity after a head change concurrent with a submission")
+            self.pool = want
+            self.invariant("after a submission concurrent with a head change")
         elif k == "extend":
             _, mask, conflict, via, miner = op
             take = [t for j, t in enumerate(self.pool) if (mask >> j) & 1]
@@ -405,6 +471,10 @@ class Machine(RuleBasedStateMachine):
     @rule(kind=st.sampled_from(["valid", "valid", "valid2", "conflict"]), a=st.integers(0, 1000), b=st.integers(0, 1000), c=st.integers(0, 1000), via=st.sampled_from(["api", "peer"]))
     def submit_plausible(self, kind, a, b, c, via):
         self.do(["tx", kind, a, b, c, via])
+
+    @rule(a=st.integers(0, 1000), b=st.integers(0, 1000), c=st.integers(0, 1000), miner=st.integers(0, 7))
+    def race_submit(self, a, b, c, miner):
+        self.do(["race_submit", a, b, c, miner])
 
     @rule(mask=st.integers(0, 15), conflict=st.integers(0, 3), via=st.sampled_from(["relay", "set"]), miner=st.integers(0, 7))
     def extend(self, mask, conflict, via, miner):
